@@ -1,0 +1,32 @@
+//go:build verif
+
+// Exports for the external verification harness (formatter kernels).  Only
+// compiled with -tags verif; adds no behaviour to normal builds.
+
+package syntax
+
+import "strings"
+
+// VerifC09QuoteString returns what quoteString writes for s.
+func VerifC09QuoteString(s string) string {
+	var buf strings.Builder
+	quoteString(&buf, s)
+	return buf.String()
+}
+
+// VerifC09FormatGB returns what formatGB writes for gb.
+func VerifC09FormatGB(gb float32) string {
+	var buf strings.Builder
+	formatGB(&buf, gb)
+	return buf.String()
+}
+
+// VerifC09RoundUpTo is roundUpTo.
+func VerifC09RoundUpTo(value float32, granularity float64) float32 {
+	return roundUpTo(value, granularity)
+}
+
+// VerifC09TopoSort runs the formatter's / compiler's call sort on a pipeline.
+func VerifC09TopoSort(p *Pipeline) error {
+	return p.topoSort()
+}
